@@ -130,9 +130,20 @@ def shards(tier, seed):
         out += dd.residue_shards("fragedit-AC", "fe", "AC", 4 if tier == "quick" else 16, {"t": ti, "edits": 1 if tier == "quick" else 2})
     for tok in ("AC", "HS") if tier == "thorough" else ("AC",):
         out += dd.residue_shards("editions-" + tok, "ed", tok, 32)
+    out += dd.residue_shards("examples-AC", "ex", "AC", 8)
     for tok in ("AC", "HS", "REF"):
         out += dd.seq_shards("plain-" + tok, "A2", len(A2), d[tok], tok)
     return out
+
+
+def example_cases(sh):
+    """Example citations of reporters-db that carry a year inside the citation, with boundary and out-of-range years."""
+    from mc import examples
+
+    for kind, key, ex in examples.all_examples()[sh["r"] :: sh["n"]]:
+        for exy in examples.with_years(ex):
+            yield {"part": sh["part"], "tok": sh["tok"], "text": f"Foo v. Bar, {exy}."}
+            yield {"part": sh["part"], "tok": sh["tok"], "text": f"See {exy} (x)."}
 
 
 def edition_cases(sh):
@@ -162,5 +173,7 @@ def run_shard(sh):
         gen = ("".join(seq) for seq, _ in docspace.edit_mutations(TEMPLATES[sh["t"]], EDIT_ALPHA, sh["edits"]))
         cases = ({"part": sh["part"], "tok": sh["tok"], "text": t} for t in dd.sliced(gen, sh["r"], sh["n"]))
         return dd.run_cases(st, sh["part"], cases, evaluate, nontrivial=nontrivial, outcome=outcome)
+    if sh["kind"] == "ex":
+        return dd.run_cases(st, sh["part"], example_cases(sh), evaluate, nontrivial=nontrivial, outcome=outcome)
     cases = dd.seq_cases(sh, ALPHABETS) if sh["kind"] == "seq" else edition_cases(sh)
     return dd.run_cases(st, sh["part"], cases, evaluate, nontrivial=nontrivial, outcome=outcome)
